@@ -83,11 +83,13 @@ QuiescentEv == /\ Is("Quiescent")
                /\ On("C01") => ((started /\ ~connectThrew /\ E.pending = 0) => rootCount = 1)
                /\ On("C20") => E.asr = 0       \* async-stack roots are restored at every quiescent point
                /\ UNCHANGED <<started, startOpen, connectThrew, rootCount, afterRoot, leafLive, leafRunning, allocs>>
-Alloc == /\ Is("Alloc") /\ allocs' = [allocs EXCEPT ![E.tag] = @ + 1]
+\* an allocation on an allocator nobody installed (e.g. a moved-from one, tag -2) is a C12 violation, not an evaluation error
+Alloc == /\ Is("Alloc") /\ (On("C12") => E.tag \in Tags)
+         /\ allocs' = IF E.tag \in Tags THEN [allocs EXCEPT ![E.tag] = @ + 1] ELSE allocs
          /\ UNCHANGED <<started, startOpen, connectThrew, rootCount, afterRoot, leafLive, leafRunning>>
 Free == /\ Is("Free")
-        /\ On("C12") => allocs[E.tag] > 0
-        /\ allocs' = [allocs EXCEPT ![E.tag] = IF @ > 0 THEN @ - 1 ELSE 0]
+        /\ On("C12") => (E.tag \in Tags /\ allocs[E.tag] > 0)
+        /\ allocs' = IF E.tag \in Tags THEN [allocs EXCEPT ![E.tag] = IF @ > 0 THEN @ - 1 ELSE 0] ELSE allocs
         /\ UNCHANGED <<started, startOpen, connectThrew, rootCount, afterRoot, leafLive, leafRunning>>
 EndEv == /\ Is("End")
          /\ On("C01") => ((started /\ ~connectThrew) => E.rootCompletions = 1) /\ (~started => E.rootCompletions = 0)
